@@ -209,6 +209,14 @@ class C09(CleanBase):
                 fails.append({"msg": "%s: report mode did not list the stale entry and the old file: %s" % (where, out[-400:])})
             if any(l.rstrip().endswith(("m_test.snap", "TestStand_1.snap", "TestVal - 1")) for l in out.splitlines()):
                 fails.append({"msg": "%s: report mode lists an addressed item as obsolete: %s" % (where, out[-400:])})
+            # every OTHER value of UPDATE_SNAPS is report mode too ("in every other mode no entry or file is removed")
+            for spelling in ("1", "TRUE", "t", "True", "yes", "Clean", "always", "false"):
+                rc, out, img = run({"BB_VALUE": "v0", "BB_GONE": "0", "UPDATE_SNAPS": spelling})
+                runs += 1
+                if img != base:
+                    fails.append({"msg": "%s: UPDATE_SNAPS=%s (neither `true` nor `clean`) changed the snapshot directory: files %s" % (where, spelling, sorted(img))})
+                if "TestGone - 1" not in out or "old_test.snap" not in out:
+                    fails.append({"msg": "%s: UPDATE_SNAPS=%s did not list the stale entry and the old file: %s" % (where, spelling, out[-400:])})
             # clean mode
             rc, out, img = run({"BB_VALUE": "v0", "BB_GONE": "0", "UPDATE_SNAPS": "clean"})
             runs += 1
